@@ -26,6 +26,16 @@ CHECKS = {
   text="Exploration: generated programs with up to 3 user functions (before/after use, recursive on a decreasing counter, value-less, wrong arity, unknown names) whose parameters, locals and loop variables are drawn from a pool that also names globals, with returns from inside foreach/while/switch at every depth, must agree with a reference interpreter that keeps an explicit scope stack: result, host-call sequence, and all globals after the run.",
   note="Trusted: reference interpreter. A callee reading or writing a caller's local (dynamic visibility) is outside what the property fixes: such cases are detected by the model and accepted either way (counted as unspecified).",
   ref="DESIGN.md §3 C06"),
+ "C07": dict(
+  technique="stateful property-based testing (rapid): generated run/SetVariable histories on one evaluator, each run compared with a freshly prepared evaluator holding the same variables",
+  text="Exploration: one prepared evaluator is driven through generated histories of run(object_i) and SetVariable actions with scripts that end normally, by early return from nested loops and functions, by run-time error, panic() or arity mismatch at top level and inside functions at depth 1-3, and that use ++/-- on literals around 65534. After every run a fresh evaluator built from the same text and given deep copies of the pre-run variables must give the same result/error-ness, host calls and variables; open scopes, residual stack depth and the printed constant pool (hooks) must equal the fresh evaluator's, which is how 'cost does not grow' is decided (state, not timing).",
+  note="Oracle is differential (used vs fresh), no model. Time-outs are only met as the 2 s safety deadline and make a history inconclusive. Hooks used: VerifGlobals, VerifScopeDepth, VerifStackDepth, VerifProgram.",
+  ref="DESIGN.md §3 C07"),
+ "C18": dict(
+  technique="property-based testing (rapid) with a bytecode verifier as validity predicate over compiled programs, plus deterministic stressors at the 16-bit limits",
+  text="Exploration: for every generated program (three generator profiles) and a fixed set of stressor programs (integer literals 65533-131071 next to every jumping construct, function bodies ending in operand byte 24, bodies padded to 65450-65600 bytes (thorough: 32 Ki, 128 Ki, 200 KB) before every jumping construct, 255-1000 (thorough 65535-65537) distinct constants and elements) the program the machine will run - main and every function, with and without optimizer, read through the hook - is checked by a structural verifier: known opcodes, complete operands, jump targets on instruction starts inside the body, constant references exist and are strings where names are required, function bodies return on all paths, and a min-stack-depth data-flow over ALL paths never drops below what an instruction pops. Executions must not end in the machine's internal errors, and padded programs must behave like their unpadded twins.",
+  note="The verifier (harness/bcverify) is trusted; it assumes calls push one value (as the property allows). It is a predicate over generated programs, not a proof about the compiler. Known finding C18-valueless-operand (statement-like nodes accepted as operands) is outside the generated grammar by construction.",
+  ref="DESIGN.md §3 C18"),
 }
 
 def main():
